@@ -136,6 +136,20 @@ def oracle(req, impl, build):
 def extra(binary, build, tier, rng):
     """the streams of the word generators under LARGE byte fills (64 KiB and more, every alignment class): the little-endian word stream of the
     same generator - the list-based model driver is too slow for fills of this size, so this part is judged on the implementation alone"""
+    if build == "release":
+        # one fill of more than 2^32 bytes per generator (a 32-bit length, mask or counter on the way is only visible there): the little-endian
+        # word stream of a clone, no untouched window, and the generator continues with the word after the last one used
+        L = (1 << 32) + 13
+        reqs = ["bigfill gen=%s seed=%d pre32=1 len=%d api=fill_bytes" % (g, 40 + i, L) for i, g in enumerate(("xoshiro", "splitmix", "wyrand"))]
+        for q, o in zip(reqs, C.run_parallel(binary, reqs)):
+            f = dict(t.split(":", 1) for t in o.split()) if o.startswith("le:") else {}
+            if not f:
+                yield {"kind": "oracle", "build": build, "request": q, "impl": o, "model": "", "oracle": "a fill of 2^32 + 13 bytes failed: " + o}
+            elif f["le"] != "ok":
+                yield {"kind": "oracle", "build": build, "request": q, "impl": o, "model": "", "oracle": "seeded stream under a fill of 2^32 + 13 bytes: byte %s is not the little-endian serialisation of the successive next_u64 outputs (%s of %s probed 4 KiB windows were not written at all)" % (f["le"], f["zero_windows"], f["of"])}
+            elif f["cont"] != "ok":
+                yield {"kind": "oracle", "build": build, "request": q, "impl": o, "model": "", "oracle": "after a fill of 2^32 + 13 bytes the generator does not continue with the word after the last one used"}
+        yield {"kind": "count", "what": "huge-fill-bytes", "n": 3 * L}
     if build != "dev" and tier == "quick":
         return
     from . import p_c10
